@@ -18,9 +18,39 @@
 
 use digest::{Output, OutputSizeUser};
 use hkdf::{Hkdf, HkdfExtract, HmacImpl, InvalidLength, InvalidPrkLength};
-use hpke::verif_model::{LinHash, LIN_K, LIN_SEED};
+use hpke::verif_model::{InternHash, LinHash, LIN_K, LIN_SEED};
 
-/// HMAC-LinHash state: running inner hash + the padded key K0 (RFC 2104)
+/// What the stub layer needs from a model hash: an incremental HMAC whose state is small enough to
+/// live inside the (opaque) hkdf objects.
+pub trait FastHmac: OutputSizeUser {
+    type St: Copy;
+    /// HMAC started with `key`
+    fn begin(key: &[u8]) -> Self::St;
+    fn absorb(st: &mut Self::St, data: &[u8]);
+    /// the HMAC value (Nh bytes) into `out`
+    fn finish(st: &Self::St, out: &mut [u8]);
+}
+
+fn put<T, S: Copy>(st: S) -> T {
+    assert!(core::mem::size_of::<T>() >= core::mem::size_of::<S>(), "container too small for the HKDF stub layer");
+    let mut m = core::mem::MaybeUninit::<T>::zeroed();
+    unsafe {
+        core::ptr::write_unaligned(m.as_mut_ptr() as *mut S, st);
+        m.assume_init()
+    }
+}
+fn get<T, S: Copy>(t: &T) -> S {
+    unsafe { core::ptr::read_unaligned(t as *const T as *const S) }
+}
+fn set<T, S: Copy>(t: &mut T, st: S) {
+    unsafe { core::ptr::write_unaligned(t as *mut T as *mut S, st) }
+}
+
+// ---------------------------------------------------------------------------------------------
+// LinHash: HMAC computed directly on the u64 state (RFC 2104 with block = 8)
+// ---------------------------------------------------------------------------------------------
+
+/// HMAC-LinHash state: running inner hash + the padded key K0
 #[derive(Clone, Copy)]
 #[repr(C)]
 pub struct LinSt {
@@ -29,28 +59,108 @@ pub struct LinSt {
     pub k0: [u8; 8],
 }
 
-pub trait FastHmac: OutputSizeUser {
-    fn is_lin() -> bool;
-}
 impl FastHmac for LinHash {
-    fn is_lin() -> bool {
-        true
+    type St = LinSt;
+    fn begin(key: &[u8]) -> LinSt {
+        lin_begin(lin_k0(key))
+    }
+    fn absorb(st: &mut LinSt, data: &[u8]) {
+        lin_absorb(&mut st.acc, &mut st.len, data);
+    }
+    fn finish(st: &LinSt, out: &mut [u8]) {
+        out.copy_from_slice(&lin_end(st));
     }
 }
 
-fn put<T>(st: LinSt) -> T {
-    assert!(core::mem::size_of::<T>() >= core::mem::size_of::<LinSt>(), "container too small for the HKDF stub layer");
-    let mut m = core::mem::MaybeUninit::<T>::zeroed();
-    unsafe {
-        core::ptr::write_unaligned(m.as_mut_ptr() as *mut LinSt, st);
-        m.assume_init()
+// ---------------------------------------------------------------------------------------------
+// InternHash instantiation: HMAC itself is modelled as an INJECTIVE function of (key, message)
+// (symbolic / Dolev-Yao model): the value is the index of the first equal (key, message) pair in a
+// ghost table.  Equal outputs <=> equal (key, message).  One table entry per HMAC instead of two
+// hash entries plus the ipad/opad processing of the real construction.
+// ---------------------------------------------------------------------------------------------
+
+pub const IH_MSG_CAP: usize = 68;
+pub const IH_TABLE_CAP: usize = 24;
+
+#[derive(Clone, Copy)]
+#[repr(C)]
+pub struct InternSt {
+    pub key: [u8; 12],
+    pub key_len: u8,
+    pub msg_len: u8,
+    pub overflow: bool,
+    pub msg: [u8; IH_MSG_CAP],
+}
+const IH_EMPTY: InternSt = InternSt { key: [0; 12], key_len: 0, msg_len: 0, overflow: false, msg: [0; IH_MSG_CAP] };
+pub struct InternHmacTable {
+    pub n: usize,
+    pub e: [InternSt; IH_TABLE_CAP],
+    pub overflow: bool,
+}
+pub static mut IH_TABLE: InternHmacTable = InternHmacTable { n: 0, e: [IH_EMPTY; IH_TABLE_CAP], overflow: false };
+pub fn intern_hmac_overflowed() -> bool {
+    unsafe { (*core::ptr::addr_of!(IH_TABLE)).overflow }
+}
+
+impl FastHmac for InternHash {
+    type St = InternSt;
+    fn begin(key: &[u8]) -> InternSt {
+        let mut st = IH_EMPTY;
+        if key.len() > 12 {
+            st.overflow = true;
+        } else {
+            let mut i = 0;
+            while i < 12 {
+                if i < key.len() {
+                    st.key[i] = key[i];
+                }
+                i += 1;
+            }
+            st.key_len = key.len() as u8;
+        }
+        st
     }
-}
-fn get<T>(t: &T) -> LinSt {
-    unsafe { core::ptr::read_unaligned(t as *const T as *const LinSt) }
-}
-fn set<T>(t: &mut T, st: LinSt) {
-    unsafe { core::ptr::write_unaligned(t as *mut T as *mut LinSt, st) }
+    fn absorb(st: &mut InternSt, data: &[u8]) {
+        let mut i = 0;
+        while i < data.len() {
+            if (st.msg_len as usize) < IH_MSG_CAP {
+                st.msg[st.msg_len as usize] = data[i];
+                st.msg_len += 1;
+            } else {
+                st.overflow = true;
+            }
+            i += 1;
+        }
+    }
+    fn finish(st: &InternSt, out: &mut [u8]) {
+        let t = unsafe { &mut *core::ptr::addr_of_mut!(IH_TABLE) };
+        if st.overflow {
+            t.overflow = true;
+        }
+        // always append (keeps the write index concrete), id = first equal entry
+        let slot = t.n;
+        if slot < IH_TABLE_CAP {
+            t.e[slot] = *st;
+            t.n = slot + 1;
+        } else {
+            t.overflow = true;
+        }
+        let mut found = slot;
+        let mut i = 0;
+        while i < IH_TABLE_CAP {
+            if i < slot && found == slot {
+                let e = &t.e[i];
+                // unused bytes are zero in both, so whole-array comparison is exact
+                if e.key_len == st.key_len && e.msg_len == st.msg_len && e.key == st.key && e.msg == st.msg {
+                    found = i;
+                }
+            }
+            i += 1;
+        }
+        let idb = (found as u32 + 1).to_be_bytes();
+        let pat = [0xA5, idb[0], idb[1], idb[2], idb[3], 0x5A, idb[3], idb[2], idb[1], idb[0], 0xC3, 0x3C];
+        out.copy_from_slice(&pat);
+    }
 }
 
 pub fn lin_absorb(acc: &mut u64, len: &mut u64, data: &[u8]) {
@@ -118,12 +228,12 @@ where
     H: OutputSizeUser + FastHmac,
     I: HmacImpl<H>,
 {
-    assert!(H::is_lin() && <H as OutputSizeUser>::output_size() == 8);
-    let k0 = match salt {
-        Some(s) => lin_k0(s),
-        None => [0u8; 8], // HashLen zeros
+    let zeros = [0u8; 64];
+    let st = match salt {
+        Some(s) => H::begin(s),
+        None => H::begin(&zeros[..<H as OutputSizeUser>::output_size()]), // HashLen zeros
     };
-    put(lin_begin(k0))
+    put(st)
 }
 
 pub fn stub_input_ikm<H, I>(this: &mut HkdfExtract<H, I>, ikm: &[u8])
@@ -131,8 +241,8 @@ where
     H: OutputSizeUser + FastHmac,
     I: HmacImpl<H>,
 {
-    let mut st = get(this);
-    lin_absorb(&mut st.acc, &mut st.len, ikm);
+    let mut st: H::St = get(this);
+    H::absorb(&mut st, ikm);
     set(this, st);
 }
 
@@ -141,11 +251,13 @@ where
     H: OutputSizeUser + FastHmac,
     I: HmacImpl<H>,
 {
-    let st = get(&this);
+    let nh = <H as OutputSizeUser>::output_size();
+    let st: H::St = get(&this);
     core::mem::forget(this);
-    let prk = lin_end(&st);
-    // the expander keyed with PRK (8 bytes = one block, so K0 = PRK)
-    (out_from::<H>(&prk), put(LinSt { acc: 0, len: 0, k0: prk }))
+    let mut prk = [0u8; 64];
+    H::finish(&st, &mut prk[..nh]);
+    // the expander: an HMAC started with PRK as key
+    (out_from::<H>(&prk), put(H::begin(&prk[..nh])))
 }
 
 pub fn stub_from_prk<H, I>(prk: &[u8]) -> Result<Hkdf<H, I>, InvalidPrkLength>
@@ -153,11 +265,10 @@ where
     H: OutputSizeUser + FastHmac,
     I: HmacImpl<H>,
 {
-    assert!(H::is_lin());
     if prk.len() < <H as OutputSizeUser>::output_size() {
         return Err(InvalidPrkLength);
     }
-    Ok(put(LinSt { acc: 0, len: 0, k0: lin_k0(prk) }))
+    Ok(put(H::begin(prk)))
 }
 
 pub fn stub_expand_multi_info<H, I>(this: &Hkdf<H, I>, info_components: &[&[u8]], okm: &mut [u8]) -> Result<(), InvalidLength>
@@ -165,26 +276,26 @@ where
     H: OutputSizeUser + FastHmac,
     I: HmacImpl<H>,
 {
-    let nh = 8usize;
+    let nh = <H as OutputSizeUser>::output_size();
     if okm.len() > nh * 255 {
         return Err(InvalidLength);
     }
-    let k0 = get(this).k0;
+    let keyed: H::St = get(this);
     let l = okm.len();
-    let mut t = [0u8; 8];
+    let mut t = [0u8; 64];
     let mut tlen = 0usize;
     let mut done = 0usize;
     let mut counter: u8 = 1;
     while done < l {
-        let mut st = lin_begin(k0);
-        lin_absorb(&mut st.acc, &mut st.len, &t[..tlen]);
+        let mut st = keyed;
+        H::absorb(&mut st, &t[..tlen]);
         let mut k = 0;
         while k < info_components.len() {
-            lin_absorb(&mut st.acc, &mut st.len, info_components[k]);
+            H::absorb(&mut st, info_components[k]);
             k += 1;
         }
-        lin_absorb(&mut st.acc, &mut st.len, &[counter]);
-        t = lin_end(&st);
+        H::absorb(&mut st, &[counter]);
+        H::finish(&st, &mut t[..nh]);
         tlen = nh;
         let take = if l - done < nh { l - done } else { nh };
         let mut j = 0;
